@@ -1,10 +1,173 @@
 import JP.Driver
 import JP.Impl.Den
+import JP.Props.C09
 
-/-! # Property C10 — theorems (see DESIGN.md §6) -/
+/-!
+# Property C10 — safe for concurrent use, including a shared `Patch` (see DESIGN.md §6 and §H)
+
+In the interleaving semantics of `JP/World/Conc.lean` (N goroutines, each executing a list of calls;
+atomic steps = `sync.Pool` Get/Put, `sync.Map` LoadOrStore, private computation; `Get` returns ANY
+pooled object or a fresh one and removes it from the pool; the runtime may drop pooled objects at
+any time):
+
+* `schedule_independent`: in every reachable state, a finished goroutine holds, call by call, the
+  pure results of its calls = what each call returns alone (C09); the only interaction between
+  goroutines is which leftovers a `Get` returns;
+* `footprints_disjoint`: the memory events of every call (`Call.trace`: derived from the call's
+  program, for ANY leftovers and ANY choice of objects by the pools) are well owned: each write is
+  to call-private memory or to a pooled object acquired earlier in that call and not yet
+  released; nothing is written to the caller's arguments or to package variables; the caches are
+  accessed through `sync.Map` only;
+* `no_conflicting_access`: in any interleaving of well-owned traces that respects the pool
+  discipline (no object is handed out while somebody holds it), every write to a pooled object
+  is made by the one goroutine holding it.
+
+A shared `Patch` is an ARGUMENT of the calls: the programs are functions of it and the footprints
+contain only reads of arguments, so sharing it between goroutines is covered by the statements as
+they are (in Go: `Operation.value()` wraps the shared `*json.RawMessage` in a fresh `lazyNode`; the
+raw bytes are only read).
+
+ASSUMED Go-level facts: those of `JP/World/Pool.lean` (S1–S4, E1–E5, D1–D7, L1–L4) and P1–P4 in the
+header of `JP/World/Conc.lean`.  NOT covered: that the Go code's real memory accesses are those of
+the traces; data-race freedom under the Go memory model (the race detector on executed
+schedules is the evidence); writes to caller memory.
+-/
 
 namespace JP
 namespace C10
+
+open World Impl
+
+/-- every interleaving: each finished goroutine holds its sequential results -/
+theorem schedule_independent (scripts : List (List Call)) (P : Pools) (hP : P.Inv) (S' : Sys (List Res))
+    (h : Steps ⟨P, scripts.map seqP⟩ S') (i : Nat) (rs : List Res) (hr : S'.threads[i]? = some (.ret rs)) :
+    ∃ cs, scripts[i]? = some cs ∧ rs = cs.map Call.pure ∧
+      rs = cs.map (fun c => c.prog.run Leftovers.fresh) := by
+  have hI := h.preserves (Qs := scripts.map fun cs => fun rs => rs = cs.map Call.pure)
+    ⟨hP, forall2_map_sat scripts⟩
+  obtain ⟨Q, hQ, hq⟩ := hI.result hr
+  rw [List.getElem?_map] at hQ
+  cases hs : scripts[i]? with
+  | none => simp [hs] at hQ
+  | some cs =>
+    simp [hs] at hQ
+    subst hQ
+    refine ⟨cs, rfl, hq, ?_⟩
+    rw [hq]
+    apply List.map_congr_left
+    intro c _
+    exact ((Call.prog_sat c).run Leftovers.fresh Leftovers.fresh_inv).symm
+
+/-- the pools satisfy their invariant in every reachable state (C09.pool_invariant, restated) -/
+theorem schedule_preserves_invariant (scripts : List (List Call)) (P : Pools) (hP : P.Inv) (S' : Sys (List Res))
+    (h : Steps ⟨P, scripts.map seqP⟩ S') : S'.pools.Inv :=
+  C09.pool_invariant.2.2.2.2.2.2.2 scripts P S' hP h
+
+/-- footprints: every write a call performs is to an object it acquired and has not yet released or
+to call-private data; the caches go through the `sync` API; arguments and globals are only read -/
+theorem footprints_disjoint (c : Call) (L : Leftovers) (hL : L.Inv) (idOf : PoolId → Nat → Nat) :
+    wellOwned [] (c.trace L idOf) = true :=
+  Call.trace_wellOwned c L hL idOf
+
+/-- what `wellOwned` means, spelled out on the events -/
+theorem wellOwned_spec (held : List (PoolId × Nat)) (es : List Ev) (h : wellOwned held es = true) :
+    ∀ l, Ev.write l ∈ es → l = .priv ∨ ∃ p o, l = .pooled p o := by
+  induction es generalizing held with
+  | nil => intro l hl; cases hl
+  | cons e es ih =>
+    intro l hl
+    cases e with
+    | acquire p o =>
+      cases hl with
+      | tail _ hl' => exact ih _ (by simpa [wellOwned] using h) l hl'
+    | release p o =>
+      cases hl with
+      | tail _ hl' =>
+        simp only [wellOwned, Bool.and_eq_true] at h
+        exact ih _ h.2 l hl'
+    | read l' =>
+      cases hl with
+      | tail _ hl' => exact ih _ (by simpa [wellOwned] using h) l hl'
+    | sync k =>
+      cases hl with
+      | tail _ hl' => exact ih _ (by simpa [wellOwned] using h) l hl'
+    | write l' =>
+      cases l' with
+      | pooled p o =>
+        simp only [wellOwned, Bool.and_eq_true] at h
+        cases hl with
+        | head => exact .inr ⟨p, o, rfl⟩
+        | tail _ hl' => exact ih _ h.2 l hl'
+      | priv =>
+        cases hl with
+        | head => exact .inl rfl
+        | tail _ hl' => exact ih _ (by simpa [wellOwned] using h) l hl'
+      | callerIn a => simp [wellOwned] at h
+      | global g => simp [wellOwned] at h
+      | unowned p => simp [wellOwned] at h
+
+/-- no call ever writes to its arguments, to a package variable, or to a pooled object it does
+not hold -/
+theorem never_writes_shared (c : Call) (L : Leftovers) (hL : L.Inv) (idOf : PoolId → Nat → Nat) :
+    (∀ a, Ev.write (.callerIn a) ∉ c.trace L idOf) ∧ (∀ g, Ev.write (.global g) ∉ c.trace L idOf) ∧
+    (∀ p, Ev.write (.unowned p) ∉ c.trace L idOf) := by
+  have h := wellOwned_spec [] _ (footprints_disjoint c L hL idOf)
+  refine ⟨fun a hm => ?_, fun g hm => ?_, fun p hm => ?_⟩
+  · rcases h _ hm with h1 | ⟨p, o, h1⟩ <;> cases h1
+  · rcases h _ hm with h1 | ⟨p, o, h1⟩ <;> cases h1
+  · rcases h _ hm with h1 | ⟨p', o, h1⟩ <;> cases h1
+
+/-- interleavings: with exclusive hand-out by the pools (fact P1), a write to a pooled object is
+always made by the goroutine that holds it, and nobody else holds it -/
+theorem no_conflicting_access (n : Nat) (tr : List TEv) (hw : threadsWellOwned n tr = true)
+    (hx : exclusive tr [] = true) (ht : ∀ e ∈ tr, e.1 < n) : noConflict tr [] = true :=
+  noConflict_of_wellOwned n tr hw hx ht
+
+/-! ## non-vacuity -/
+
+/-- two goroutines sharing the poisoned pools, a hand-written interleaving: both get their
+sequential results (thread 1 also applies to the document `null` with stale keys around) -/
+def g0 : List Call := [.apply {} {} [] (ascii "null") [], .apply {} {} [] (ascii "{\"a\":1}") []]
+def g1 : List Call := [.equal {} (ascii "[1]") (ascii " [1]"), .apply {} {} [] (ascii "null") []]
+def sched : List Nat := (List.replicate 12 [0, 1, 1, 0, 0]).flatten
+
+theorem schedule_example :
+    (resultOf (runSchedule ⟨C09.poisoned, [seqP g0, seqP g1]⟩ sched) 0).map (·.map Res.code)
+      = some (g0.map fun c => c.pure.code) ∧
+    (resultOf (runSchedule ⟨C09.poisoned, [seqP g0, seqP g1]⟩ sched) 1).map (·.map Res.code)
+      = some (g1.map fun c => c.pure.code) := by
+  decide +kernel
+
+/-- the executed schedule is a run of the semantics, so `schedule_independent` applies to it -/
+example : Steps ⟨C09.poisoned, [g0, g1].map seqP⟩ (runSchedule ⟨C09.poisoned, [seqP g0, seqP g1]⟩ sched) :=
+  runSchedule_steps _ _
+
+/-- the footprint of a concrete call in the dirty world, objects numbered by acquisition: the
+trace is non-trivial (nested holds of two decoder states) and well owned -/
+def idOf : PoolId → Nat → Nat := fun _ n => 100 + n
+
+theorem footprint_example :
+    (Call.apply {} {} [] (ascii "null") []).trace C09.staleWorld idOf =
+      [.read (.callerIn 0), .read (.callerIn 1), .read (.global 0), .read (.global 1),
+       .acquire .scan 100, .write (.pooled .scan 100), .release .scan 100,
+       .acquire .dec 100, .acquire .dec 101,
+       .write (.pooled .dec 101), .release .dec 101, .write (.pooled .dec 100), .release .dec 100,
+       .acquire .enc 100, .sync 0, .write (.pooled .enc 100), .release .enc 100] := by
+  decide +kernel
+
+/-- `no_conflicting_access` has satisfiable hypotheses, and rejects a write without holding -/
+example : threadsWellOwned 2 [(0, .acquire .dec 7), (1, .acquire .dec 8), (0, .write (.pooled .dec 7)),
+      (1, .write (.pooled .dec 8)), (0, .release .dec 7), (1, .acquire .dec 7), (1, .write (.pooled .dec 7))] = true ∧
+    exclusive [(0, .acquire .dec 7), (1, .acquire .dec 8), (0, .write (.pooled .dec 7)),
+      (1, .write (.pooled .dec 8)), (0, .release .dec 7), (1, .acquire .dec 7), (1, .write (.pooled .dec 7))] [] = true ∧
+    noConflict [(0, .acquire .dec 7), (1, .write (.pooled .dec 7))] [] = false := by
+  decide
+
+-- #print axioms schedule_independent
+-- #print axioms footprints_disjoint
+-- #print axioms no_conflicting_access
+-- #print axioms never_writes_shared
+-- #print axioms schedule_example
 
 end C10
 end JP
